@@ -22,6 +22,20 @@ add("C06", "exploration",
     "Trusted: CPython int, the nlrun canonical serialiser, Hypothesis. % by zero is excluded (C14). Shift counts 0..4096.",
     "DESIGN.md §3 C06")
 
+add("C07", "exploration",
+    "property-based testing (Hypothesis) against fractions.Fraction / IEEE reference; metamorphic level relation for mixed float/complex operands",
+    "Exact levels are compared with Fraction arithmetic including result level; a pair whose higher level is float/complex must "
+    "equal the same operation on operands converted by the interpreter itself; rounding/conversion family against exact "
+    "arithmetic; vectors element-wise with broadcasting, unequal lengths must raise.",
+    "Trusted: CPython Fraction/float, nlrun serialiser, Hypothesis; for mixed levels the float/complex arithmetic of the interpreter itself.",
+    "DESIGN.md §3 C07")
+add("C08", "exploration",
+    "exhaustive pool x pool comparison grid plus property-based testing (Hypothesis) against exact rational comparison",
+    "Every comparison operator, <=>, >=<, min, max on an exhaustive grid of ~70 boundary values of all real levels, on generated "
+    "near-equal pairs, sort as ordered stable permutation, lexicographic sequences and must-raise for incomparable kinds.",
+    "Trusted: Fraction(float) exactness, nlrun serialiser, Hypothesis.",
+    "DESIGN.md §3 C08")
+
 NOT_APPLICABLE = {
 }
 
